@@ -471,6 +471,96 @@ let addr_run (line : string) : string =
       | _ -> failwith ("addr-run: bad op " ^ sec)) (split_on_string " | " line) in
   String.concat " " outs
 
+(* ---------- life-cycle histories (see harness/cmd/h_life/main.go) ---------- *)
+let life_run (line : string) : string =
+  let st = ref l_init in
+  let gate = ref false and gate_pending = ref false and hold = ref false and held = ref false in
+  let last_obj = ref (-1) in
+  let step lb = match lstep !st lb with Some s' -> st := s'; true | None -> false in
+  let obj_open () = match !st.listener with
+    | Some i -> (get_obj !st i).lo_open
+    | None -> false in
+  let rec quiesce fuel =
+    if fuel = 0 then () else
+    if !held then () else
+    if step LServe then begin
+      (* a gate set by the harness takes effect at the next entry into Accept *)
+      if !st.serve = SAccept && !gate_pending then (gate := true; gate_pending := false);
+      quiesce (fuel - 1)
+    end
+    else begin
+      let progressed =
+        (match !st.serve with
+         | SAccept when not !gate ->
+           (match cur_obj !st with
+            | Some o when o.lo_open ->
+              (match o.lo_queue with
+               | _ :: _ -> if step LAcceptConn then (if !hold then (hold := false; held := true); true) else false
+               | [] -> false)
+            | _ -> step LAcceptClosed)
+         | _ -> false) in
+      if progressed then quiesce (fuel - 1)
+      else begin
+        (* handlers whose connection has ended run their exit *)
+        let n = List.length !st.conns in
+        let any = ref false in
+        for c = 0 to n - 1 do
+          if step (LHandlerExit (nat_of_int c)) then any := true
+        done;
+        if !any then quiesce (fuel - 1)
+      end
+    end in
+  let show_ret = function
+    | RNilRet -> "ret:nil" | RTimeoutErr -> "ret:timeout" | _ -> "ret:err" in
+  let outs = List.map (fun sec ->
+      match fields sec with
+      | "bind" :: _ -> ignore (step (LBind true)); (match !st.listener with Some i -> last_obj := int_of_nat i | None -> ()); "ok"
+      | "realbind" :: ok :: _ ->
+        let before = !st.listener in
+        ignore (step (LBind (ok = "1")));
+        if !st.listener <> before && not !st.running then "ok" else (if ok = "1" && not !st.running then "ok" else "err")
+      | "dolisten" :: t :: _ ->
+        if !st.serve <> SNone then "skipped"
+        else (ignore (step (LStartDoListen (t = "1"))); quiesce 1000; "started")
+      | "listen" :: ok :: t :: _ ->
+        if !st.serve <> SNone then
+          (* a second Listen while one is in progress: Bind refuses because the service is running *)
+          (if !st.running then "refused" else "accepted")
+        else (ignore (step (LStartListen (ok = "1", t = "1"))); quiesce 1000; "started")
+      | "wait-accept" :: _ -> if !st.serve = SAccept then "ok" else "no"
+      | "gate" :: _ -> gate_pending := true; "ok"
+      | "open-gate" :: _ -> gate := false; gate_pending := false; quiesce 1000; "ok"
+      | "hold" :: _ -> hold := true; "ok"
+      | "release" :: _ -> held := false; hold := false; quiesce 1000; "ok"
+      | "connect" :: _ ->
+        let id = List.length !st.conns in
+        ignore (step LConnect);
+        let r = (match conn_st !st (nat_of_int id) with CRefused -> "refused" | _ -> "c" ^ string_of_int id) in
+        quiesce 1000; r
+      | "call" :: id :: _ ->
+        (match conn_st !st (nat_of_int (int_of_string id)) with CServed -> "ok" | _ -> "err")
+      | "close" :: id :: _ ->
+        let c = nat_of_int (int_of_string id) in
+        (match conn_st !st c with
+         | CRefused -> "none"
+         | _ -> ignore (step (LEnd c)); quiesce 1000; "closed")
+      | "expire" :: _ ->
+        if step LExpire then (quiesce 1000; if !st.serve = SNone then "returned" else if !st.serve = SAccept then "looped" else "stuck")
+        else "stuck"
+      | "shutdown" :: _ -> ignore (step LShutdown); quiesce 1000; "nil"
+      | "wait-return" :: _ ->
+        (match !st.serve, !st.result0 with
+         | SNone, Some r -> st := { !st with result0 = None }; show_ret r
+         | SNone, None -> "notstarted"
+         | _, _ -> "noreturn")
+      | "active" :: _ -> string_of_int (int_of_nat !st.conncounter)
+      | "running" :: _ -> tf !st.running
+      | "closed" :: _ -> if !last_obj >= 0 then tf (not (get_obj !st (nat_of_int !last_obj)).lo_open) else "F"
+      | "listener-nil" :: _ -> tf (!st.listener = None)
+      | _ -> failwith ("life-run: bad op " ^ sec)) (split_on_string " | " line) in
+  ignore obj_open;
+  String.concat " " outs
+
 let split_ws (l : string) : string list =
   List.filter (fun x -> x <> "") (String.split_on_char ' ' l)
 
@@ -535,6 +625,7 @@ let handle_line (cmd : string) (line : string) : string =
   | "e2e-run" -> e2e_run line
   | "reg-run" -> reg_run line
   | "addr-run" -> addr_run line
+  | "life-run" -> life_run line
   | _ -> handle cmd line
 
 let () =
